@@ -111,6 +111,48 @@ def pTlsEnv (s : String) : Option TlsEnv :=
     | _, _, _ => none
   | _ => none
 
+/-- inverse of `oPolicy` -/
+def pCa (s : String) : Option CaSource :=
+  if s == "unset" then some .unset
+  else if s == "default" then some .default
+  else if s.startsWith "loc(" && s.endsWith ")" then
+    let inner := String.ofList ((s.toList.drop 4).dropLast)
+    match inner.splitOn "," with
+    | [a, b] => match pOptStr a, pOptStr b with
+      | some a, some b => some (.locations a b)
+      | _, _ => none
+    | _ => none
+  else none
+
+def pPolicy (s : String) : Option Policy :=
+  match s.splitOn "/" with
+  | ["fresh", v, c, ca, sni] =>
+    match pCert v, pBool c, pCa ca, pStr sni with
+    | some (some v), some c, some ca, some sni => some (.fresh v c ca sni)
+    | _, _, _, _ => none
+  | ["user", n, sni] =>
+    match n.toNat?, pStr sni with
+    | some n, some sni => some (.user n sni)
+    | _, _ => none
+  | _ => none
+
+/-- timeline token of the real run -> event (payloads are irrelevant to the ordering Spec) -/
+def pTimelineEv (t : String) : Option Ev :=
+  match t.splitOn ":" with
+  | ["D", i, sec, host] => match i.toNat?, pBool sec, pStr host with
+    | some i, some sec, some host => some (.dial i ⟨host, 0, [], sec⟩)
+    | _, _, _ => none
+  | ["A", i] => i.toNat?.map (fun i => .adopt i ⟨[], 0, [], false⟩)
+  | ["W", i, pol, ok] => match i.toNat?, pPolicy pol, pBool ok with
+    | some i, some pol, some ok => some (.wrap i pol ok)
+    | _, _, _ => none
+  | ["Iw", i] => i.toNat?.map (fun i => .io i (.write []))
+  | ["Ir", i] => i.toNat?.map (fun i => .io i (.recv 1))
+  | ["Pw", i] => i.toNat?.map (fun i => .plain i (.write []))
+  | ["Pr", i] => i.toNat?.map (fun i => .plain i (.recv 1))
+  | ["C", i] => i.toNat?.map (fun i => .close i)
+  | _ => none
+
 /-! ### rendering -/
 
 def oStr (s : Str) : String := strOut (String.ofList s)
@@ -312,6 +354,14 @@ def ops : List String → Option String
       match Spec.Tls.tlsPolicy o e h with
       | some p => some (oPolicy p)
       | none => some "refused"
+    | _, _, _ => none
+  | ["s-order-ok", o, e, evs] =>
+    match pSslOpt o, pTlsEnv e, pList pTimelineEv ";" evs with
+    | some o, some e, some tr =>
+      let pol := fun host => Spec.Tls.tlsPolicy o e host
+      some (if !Spec.Tls.orderedB pol [] tr then "0:tls-before-data"
+            else if !Spec.Tls.wsNeverWrapped tr then "0:ws-never-wrapped"
+            else "1")
     | _, _, _ => none
   | "m-connect" :: url :: rest =>
     -- url opts(7) limit usersock sslopt tlsenv urltable proxy dials
